@@ -40,6 +40,8 @@
 (declare-fun sat (Str Int) Int)
 (declare-fun str.lt (Str Str) Bool)
 (declare-fun canonhex (Str) Bool)
+; C20: the text was formatted from an error value of a store / Lightning call (set by the native model of fmt.Sprintf)
+(declare-fun str.leak (Str) Bool)
 (assert (forall ((a Str) (b Str)) (! (= (slen (scat a b)) (+ (slen a) (slen b))) :pattern ((scat a b)))))
 (assert (forall ((s Str)) (! (= (ssub s 0 (slen s)) s) :pattern ((ssub s 0 (slen s))))))
 
@@ -390,3 +392,10 @@
 ; recorders of wallet.swapToSend calls (contract clause `records`)
 ;@ghost snd.err Iface
 ;@ghost snd.calls Int
+
+;@module clockt
+; time.Time values: time.Now() reads the ghost clock clk.t (arbitrary at every reading);
+; (time.Time).After is an uninterpreted strict order test
+;@gotype time.Time
+;@ghost clk.t time.Time
+(declare-fun time.after (time.Time time.Time) Bool)
